@@ -207,7 +207,11 @@ def _run_input(loc: evid.Local, data: bytes, fam: str, roles: t.Sequence[str], s
         for state in states:
             for cname, chunks in chunkings(data, mode):
                 loc.add("transitions", len(chunks))
-                vs, outcome = feed(role, state, chunks, deep)
+                try:
+                    with K.guard(10 + len(data) // 5000):
+                        vs, outcome = feed(role, state, chunks, deep)
+                except K.CallDoesNotReturn as e:
+                    vs, outcome = [(f"receive-does-not-return:{role}", f"{role}.receive: {e}")], "foreign"
                 loc.distinct.add((fam, role, state, outcome if not outcome.startswith("error") else outcome[:30]))
                 for v in vs:
                     loc.violation(v[0], v[1] + f"  [input {data.hex()[:80]}{'..' if len(data) > 40 else ''}, {role}/{state}/{cname}]", {"role": role, "state": state, "chunks": [c.hex() for c in chunks] if len(chunks) < 80 else None, "data": data.hex() if len(data) < 4000 else None, "gen": desc, "chunking": cname})
